@@ -232,3 +232,6 @@ def check(facts, rep, tier, cfg):
     rep.rule("C15.R5", "only the stream handle (own id) and the multiplexor handle (0) report on the dropped-flows queue: the id of a resolved bind request is free for re-use and nothing closes it later")
     check_dropped_flow_senders(facts, rep, crate, "C15.R5")
     check_option_setters(facts, rep, crate, "C15.R4", ['bind_buffer_size'])
+    rep.rule("C15.S7", "who-may: the functions that touch the critical resources behind this property are those of the reference tree (flow table, closed flag, per-stream / datagram / outbound queues, last-pong timestamp, client id maps, shared TLS identity)")
+    import whomay
+    whomay.check(facts, rep, "C15.S7", "C15")
